@@ -95,6 +95,7 @@ def main():
 
         # ---- C/D/E. rebuild, correspond, witnesses (inside the property module)
         common.use_repo_package()
+        ctx.t0 = time.time()   # the time budgets of the modules start after the Lean phase (cold builds are slow)
         try:
             mod.run(ctx)
         except (CheckBroken, common.EngineBuildError):
@@ -185,11 +186,11 @@ def main():
     write_json(evidence_path, {
         "property_id": prop, "tier": args.tier, "seed": seed, "level": "proof", "coverage": cov,
         "assumptions": list(getattr(mod, "ASSUMPTIONS", [])) + ctx.assumptions,
-        "wall_s": round(time.time() - ctx.t0, 2), "violations": len(unlisted) + (1 if (ctx.broken and not unlisted) else 0),
+        "wall_s": round(time.time() - ctx.t_start, 2), "violations": len(unlisted) + (1 if (ctx.broken and not unlisted) else 0),
     })
     if rc == 0:
         print("OK property=%s tier=%s seed=%d theorems=%d evaluations=%d nontrivial=%d wall=%.1fs" % (
-            prop, args.tier, seed, n_dis, ctx.evaluations, len(ctx.nontrivial), time.time() - ctx.t0))
+            prop, args.tier, seed, n_dis, ctx.evaluations, len(ctx.nontrivial), time.time() - ctx.t_start))
     return rc
 
 
